@@ -8,7 +8,9 @@ import (
 	"crypto/sha512"
 
 	"golang.org/x/crypto/scrypt"
+	mwdb "massnet.org/mass-wallet/masswallet/db"
 	"massnet.org/mass-wallet/masswallet/keystore/snacl"
+	mdb "massnet.org/mass-wallet/zzverifmdb"
 	rt "massnet.org/mass-wallet/zzverifrt"
 )
 
@@ -27,10 +29,57 @@ func c05Manager(right []byte) *AddrManager {
 // c05Distinct: the contract under which a key-derivation / hash check distinguishes two passphrases: the
 // primitives do not collide on the two inputs compared (stated through the same API the code calls).
 func c05Distinct(a *AddrManager, right, wrong []byte) {
+	if c05SameHMACKey(right, wrong) {
+		return // the same key to scrypt's HMAC: not two inputs (see VerifC05GateLockedZeroPadded)
+	}
 	k1, _ := scrypt.Key(right, a.masterKeyPriv.Parameters.Salt[:], a.masterKeyPriv.Parameters.N, a.masterKeyPriv.Parameters.R, a.masterKeyPriv.Parameters.P, len(a.masterKeyPriv.Key))
 	k2, _ := scrypt.Key(wrong, a.masterKeyPriv.Parameters.Salt[:], a.masterKeyPriv.Parameters.N, a.masterKeyPriv.Parameters.R, a.masterKeyPriv.Parameters.P, len(a.masterKeyPriv.Key))
 	d1, d2 := sha256.Sum256(k1), sha256.Sum256(k2)
 	rt.Assume(!bytes.Equal(d1[:], d2[:]))
+}
+
+// c05SameHMACKey: equal after dropping trailing zero bytes. scrypt keys HMAC-SHA256 with the passphrase, and HMAC
+// pads keys of up to 64 bytes with zero bytes, so two such passphrases are one and the same key.
+func c05SameHMACKey(a, b []byte) bool {
+	for len(a) > 0 && a[len(a)-1] == 0 {
+		a = a[:len(a)-1]
+	}
+	for len(b) > 0 && b[len(b)-1] == 0 {
+		b = b[:len(b)-1]
+	}
+	return bytes.Equal(a, b)
+}
+
+// VerifC05GateLockedZeroPadded: the candidates left out of VerifC05GateLocked - a candidate that differs from
+// the right passphrase only in trailing zero bytes is another byte string and must be refused like any other.
+func VerifC05GateLockedZeroPadded() {
+	n := rt.NondetLen(1, 3)
+	base := rt.NondetBytes(n)
+	rt.Assume(base[n-1] != 0)
+	zr, zw := rt.NondetLen(0, 2), rt.NondetLen(0, 2)
+	rt.Assume(zr != zw)
+	right := append(append([]byte(nil), base...), make([]byte, zr)...)
+	wrong := append(append([]byte(nil), base...), make([]byte, zw)...)
+	a := c05Manager(right)
+	err := a.checkPassword(wrong)
+	rt.Reach("end") // the witness comes first: on the current tree every path fails the assertion below
+	rt.Assert(err == ErrInvalidPassphrase, "zero-padded-passphrase-refused")
+}
+
+// VerifC05GateAfterUnlockLong: the unlocked gate with a passphrase of the maximal length (40 bytes) and a longer
+// candidate: still refused.
+func VerifC05GateAfterUnlockLong() {
+	right := rt.NondetBytes(40)
+	wrong := rt.NondetBytes(rt.NondetLen(41, 42))
+	a := c05Manager([]byte{1})
+	copy(a.privPassphraseSalt[:], rt.NondetBytes(len(a.privPassphraseSalt)))
+	a.hashedPrivPassphrase = sha512.Sum512(append(append([]byte(nil), a.privPassphraseSalt[:]...), right...))
+	a.unlocked = true
+	hw := sha512.Sum512(append(append([]byte(nil), a.privPassphraseSalt[:]...), wrong...))
+	rt.Assume(hw != a.hashedPrivPassphrase) // SHA-512 does not collide on the two salted inputs
+	rt.Assert(a.checkPassword(wrong) == ErrInvalidPassphrase, "longer-candidate-refused-after-unlock")
+	rt.Assert(a.checkPassword(right) == nil, "right-passphrase-accepted-after-unlock")
+	rt.Reach("end")
 }
 
 // VerifC05GateLocked: with the key cache locked, every passphrase other than the right one is refused with
@@ -39,6 +88,7 @@ func VerifC05GateLocked() {
 	n := rt.NondetLen(1, 3)
 	right, wrong := rt.NondetBytes(n), rt.NondetBytes(rt.NondetLen(0, 3))
 	rt.Assume(!bytes.Equal(right, wrong))
+	rt.Assume(!c05SameHMACKey(right, wrong)) // those candidates: VerifC05GateLockedZeroPadded
 	a := c05Manager(right)
 	c05Distinct(a, right, wrong)
 	hashedBefore := a.hashedPrivPassphrase
@@ -82,5 +132,71 @@ func VerifC05GateAfterUnlock() {
 	rt.Assert(serr == ErrInvalidPassphrase, "sign-with-wrong-passphrase-refused-after-unlock")
 	rt.Assert(a.unlocked && a.hashedPrivPassphrase == hashedBefore, "cache-unchanged-by-refusal")
 	rt.Assert(a.checkPassword(right) == nil, "right-passphrase-accepted-after-unlock")
+	rt.Reach("end")
+}
+
+// ---- model of the secretbox layer (symbolic runs only; native replays run NaCl secretbox): an ideal cipher -
+// opening succeeds exactly with the key that sealed, and returns what was sealed. The key is kept inside the
+// model ciphertext, so this model is for functional questions only, never for secrecy ones. ----
+
+func vCKEncryptModel(ck *snacl.CryptoKey, in []byte) ([]byte, error) {
+	out := append([]byte{0xEC}, ck[:]...)
+	return append(out, in...), nil
+}
+
+func vCKDecryptModel(ck *snacl.CryptoKey, in []byte) ([]byte, error) {
+	if len(in) < 1+snacl.KeySize || in[0] != 0xEC {
+		return nil, snacl.ErrMalformed
+	}
+	if !bytes.Equal(in[1:1+snacl.KeySize], ck[:]) {
+		return nil, snacl.ErrDecryptFailed
+	}
+	return append([]byte(nil), in[1+snacl.KeySize:]...), nil
+}
+
+// VerifC05UnlockedOperations: operations that need the private passphrase, one after the other, while the key
+// cache is unlocked (as it is after a signature): a passphrase check of the kind export, removal and
+// CheckPrivPassphrase perform (safelyCheckPassword), then revealing the mnemonic. Both are given the right
+// passphrase and both must work, and the mnemonic revealed is the one of the stored entropy.
+func VerifC05UnlockedOperations() {
+	right := rt.NondetBytes(rt.NondetLen(1, 3))
+	pw := append([]byte(nil), right...)
+	sk, err := snacl.NewSecretKey(&pw, 16, 8, 1)
+	rt.Assert(err == nil, "secret-key-created")
+	db := mdb.New()
+	store := db.Top("km").Sub("ac10aaaaaaaaaaaaaaaaaaaaaaaaaaaaaaaaaaaaaa")
+	a := &AddrManager{keystoreName: "ac10aaaaaaaaaaaaaaaaaaaaaaaaaaaaaaaaaaaaaa", index: map[uint32]string{}, addrs: map[string]*ManagedAddress{},
+		acctInfo: &accountInfo{}, branchInfo: &branchInfo{}, masterKeyPriv: sk, cryptoKeyPriv: &cryptoKey{}, storage: store.GetBucketMeta()}
+	// stored secrets: the entropy under a random crypto key, that key under the master key
+	entropy := rt.NondetBytes(16)
+	var ek cryptoKey
+	ek.CopyBytes(rt.NondetBytes(32))
+	entropyEnc, err := ek.Encrypt(entropy)
+	rt.Assert(err == nil, "entropy-sealed")
+	a.cryptoKeyEntropyEncrypted, err = sk.Encrypt(ek.Bytes())
+	rt.Assert(err == nil, "entropy-key-sealed")
+	store.Set(entropyEncKeyName, entropyEnc)
+	store.Set(keystoreVersionName, []byte{byte(KeystoreVersionLatest)})
+	// unlocked, as signBtcec leaves it
+	copy(a.privPassphraseSalt[:], rt.NondetBytes(len(a.privPassphraseSalt)))
+	a.hashedPrivPassphrase = sha512.Sum512(append(append([]byte(nil), a.privPassphraseSalt[:]...), right...))
+	a.unlocked = true
+	want, werr := NewMnemonic(append([]byte(nil), entropy...))
+	rt.Assert(werr == nil, "reference-mnemonic")
+
+	first := rt.NondetBool()
+	if first {
+		rt.Assert(a.safelyCheckPassword(right) == nil, "passphrase-check-accepts-the-right-passphrase")
+	}
+	var got string
+	verr := mwdb.View(db, func(rtx mwdb.ReadTransaction) (e error) {
+		got, _, e = a.getMnemonic(rtx, right)
+		return
+	})
+	rt.Assert(verr == nil, "mnemonic-revealed-for-the-right-passphrase")
+	if verr == nil {
+		rt.Assert(got == want, "revealed-mnemonic-is-the-stored-entropys")
+	}
+	rt.Assert(a.safelyCheckPassword(right) == nil && a.checkPassword(right) == nil, "right-passphrase-still-accepted-afterwards")
 	rt.Reach("end")
 }
